@@ -372,3 +372,180 @@ func TestVerifC15Join(t *testing.T) {
 		t.Fatal(err)
 	}
 }
+
+// ---------------------------------------------------------------------------------------------------------------
+// Two plugin instances started from ONE shared config object, the way the pipeline does it for its processors
+// (pipeline.newProc: one plugin per processor from info.Factory(); processor.start: action.Start(info.Config, ...)),
+// each serving its own stream; the two streams are interleaved step by step in a given order. The state of the action
+// is per instance: each stream's output must be its own Output(seq, TO), whatever the other instance is doing
+// (specs/JoinInstances.tla).
+
+type c15Pair struct {
+	A     *c15Case `json:"a"`
+	B     *c15Case `json:"b"`
+	Order []int    `json:"order"` // which stream makes the next step (0 | 1); one step = due time-out + next event
+}
+
+type c15PairMismatch struct {
+	Kind   string      `json:"kind"`
+	Plugin string      `json:"plugin"`
+	Shared bool        `json:"shared_config"`
+	Pair   *c15Pair    `json:"pair"`
+	Stream int         `json:"stream"`
+	Got    [2][]c15Obs `json:"got"`
+	Panic  string      `json:"panic,omitempty"`
+}
+
+func c15RunPair(pr *c15Pair, salt int, newConfig func(salt int) (pipeline.AnyConfig, string, int),
+	newPlugin func() pipeline.ActionPlugin, docOf func(cl string, id int) (string, string)) (mm *c15PairMismatch) {
+	config, name, limit := newConfig(salt) // ONE config object for both instances
+	cases := [2]*c15Case{pr.A, pr.B}
+	var plugins [2]pipeline.ActionPlugin
+	var ctls [2]*c15Ctl
+	var vals, docs [2][]string
+	var events [2][]*pipeline.Event
+	var roots []*insaneJSON.Root
+	defer func() {
+		for _, r := range roots {
+			insaneJSON.Release(r)
+		}
+	}()
+	for s := 0; s < 2; s++ {
+		ctls[s] = &c15Ctl{ids: map[*pipeline.Event]int{}}
+		params := test.NewEmptyActionPluginParams()
+		params.Controller = ctls[s]
+		params.PipelineSettings = &pipeline.Settings{AvgEventSize: 64}
+		plugins[s] = newPlugin()
+		plugins[s].Start(config, params)
+		n := len(cases[s].Seq)
+		vals[s], docs[s], events[s] = make([]string, n), make([]string, n), make([]*pipeline.Event, n)
+		for k := 0; k < n; k++ {
+			vals[s][k], docs[s][k] = docOf(cases[s].Seq[k], k+1)
+			root := insaneJSON.Spawn()
+			roots = append(roots, root)
+			if err := root.DecodeString(docs[s][k]); err != nil {
+				panic(err)
+			}
+			docs[s][k] = root.EncodeToString()
+			events[s][k] = &pipeline.Event{Root: root, SourceName: fmt.Sprintf("c15-%d", s), Size: len(docs[s][k])}
+			ctls[s].ids[events[s][k]] = k + 1
+		}
+	}
+	got := func() [2][]c15Obs { return [2][]c15Obs{ctls[0].outs, ctls[1].outs} }
+	cur := -1
+	defer func() {
+		if r := recover(); r != nil {
+			mm = &c15PairMismatch{Kind: "panic", Plugin: name, Shared: true, Pair: pr, Stream: cur, Got: got(), Panic: fmt.Sprint(r)}
+		}
+	}()
+	var pos [2]int
+	timeout := func(s int) {
+		for _, p := range cases[s].TO {
+			if p == pos[s] {
+				ev := &pipeline.Event{SourceName: "timeout"}
+				ev.SetTimeoutKind()
+				plugins[s].Do(ev)
+			}
+		}
+	}
+	step := func(s int) {
+		cur = s
+		if pos[s] >= len(cases[s].Seq) {
+			return
+		}
+		timeout(s)
+		ev := events[s][pos[s]]
+		pos[s]++
+		if plugins[s].Do(ev) == pipeline.ActionPass {
+			ctls[s].record(ev)
+		}
+	}
+	for _, s := range pr.Order {
+		step(s)
+	}
+	for s := 0; s < 2; s++ { // whatever the order left over, then the final time-outs
+		for pos[s] < len(cases[s].Seq) {
+			step(s)
+		}
+		cur = s
+		timeout(s)
+	}
+	for s := 0; s < 2; s++ {
+		exp, _ := c15Items(cases[s].Exp)
+		alt, hasAlt := c15Items(cases[s].Alt)
+		ok := c15Match(ctls[s].outs, exp, vals[s], docs[s], limit)
+		if !ok && hasAlt {
+			ok = c15Match(ctls[s].outs, alt, vals[s], docs[s], limit)
+		}
+		if !ok {
+			return &c15PairMismatch{Kind: "output_differs", Plugin: name, Shared: true, Pair: pr, Stream: s, Got: got()}
+		}
+	}
+	return nil
+}
+
+func c15RunPairs(t *testing.T, run func(pr *c15Pair, i int) *c15PairMismatch) {
+	f, err := os.Open(os.Getenv("VERIF_CASES"))
+	if err != nil {
+		t.Fatal(err)
+	}
+	defer f.Close()
+	var pairs []*c15Pair
+	sc := bufio.NewScanner(f)
+	sc.Buffer(make([]byte, 1<<20), 1<<24)
+	for sc.Scan() {
+		pr := &c15Pair{}
+		if err := json.Unmarshal(sc.Bytes(), pr); err != nil {
+			t.Fatalf("bad pair line: %v", err)
+		}
+		pairs = append(pairs, pr)
+	}
+	nw := runtime.GOMAXPROCS(0)
+	var wg sync.WaitGroup
+	var mu sync.Mutex
+	var mms []*c15PairMismatch
+	executed, nmm := 0, 0
+	for wi := 0; wi < nw; wi++ {
+		wg.Add(1)
+		go func(wi int) {
+			defer wg.Done()
+			for i := wi; i < len(pairs); i += nw {
+				mm := run(pairs[i], i)
+				mu.Lock()
+				executed++
+				if mm != nil {
+					nmm++
+					if len(mms) < 50 {
+						mms = append(mms, mm)
+					}
+				}
+				mu.Unlock()
+			}
+		}(wi)
+	}
+	wg.Wait()
+	res := map[string]interface{}{"executed": executed, "mismatch_count": nmm, "mismatches": mms}
+	b, _ := json.Marshal(res)
+	if err := os.WriteFile(os.Getenv("VERIF_OUT"), b, 0o644); err != nil {
+		t.Fatal(err)
+	}
+}
+
+func TestVerifC15JoinShared(t *testing.T) {
+	if os.Getenv("VERIF_CASES") == "" || os.Getenv("VERIF_OUT") == "" {
+		t.Skip("VERIF_CASES / VERIF_OUT not set")
+	}
+	c15RunPairs(t, func(pr *c15Pair, i int) *c15PairMismatch {
+		mk := func(salt int) (pipeline.AnyConfig, string, int) {
+			limit := c15Limit(pr.A.M, salt)
+			return test.NewConfig(&Config{
+				Field:        "log",
+				Start:        cfg.Regexp("/^S/"),
+				Continue:     cfg.Regexp("/^C/"),
+				MaxEventSize: limit,
+				Negate:       pr.A.Neg[0],
+			}, nil), "join", limit
+		}
+		return c15RunPair(pr, i, mk, func() pipeline.ActionPlugin { p, _ := factory(); return p.(pipeline.ActionPlugin) }, c15Doc)
+	})
+}
